@@ -6218,6 +6218,8 @@ class Path(Shape, MutableSequence):
         the second control point in the previous path."""
         for index in range(len(points)):
             start_pos = self.current_point
+            if start_pos is None:
+                raise ValueError("smooth curve requires a current point")
             control1 = self.smooth_point
             if len(self._segments) and isinstance(self._segments[-1], CubicBezier):
                 control1 = start_pos
@@ -6258,6 +6260,8 @@ class Path(Shape, MutableSequence):
         the second control point in the previous path."""
         for index in range(0, len(points), 2):
             start_pos = self.current_point
+            if start_pos is None:
+                raise ValueError("smooth curve requires a current point")
             control1 = self.smooth_point
             if len(self._segments) and isinstance(
                 self._segments[-1], QuadraticBezier
